@@ -391,15 +391,30 @@ class Language(object):
                     args.append(arg)
             raise BracketMismatch
 
+        def apply_operator() -> None:
+            # The parameters of an operator are complete once its bracket
+            # closes, e.g. `F(A, B)` in `F(A, B) * C`
+            args: list[TypeInstance] = []
+            while stack and isinstance(stack[-1], TypeInstance):
+                args.append(stack.pop())
+            if stack and isinstance(stack[-1], (TypeOperator, TypeAlias)):
+                stack.append(stack.pop()(*reversed(args)))
+            else:
+                raise ParseError("Could not parse type instance")
+
         level = 0
+        calls: list[bool] = []  # does the open bracket follow an operator?
         while token := next(tokens, None):
             if token == "(":
+                calls.append(isinstance(stack[-1], (TypeOperator, TypeAlias)))
                 stack.append(None)
                 level += 1
             elif token in "),":
                 backtrack()
                 if token == ")":
                     level -= 1
+                    if calls and calls.pop():
+                        apply_operator()
                 else:
                     stack.append(None)
             elif token == "_":
